@@ -65,7 +65,9 @@ kinds! {
     TpSetLogArea,
     TsLogArea, TsActiveLow, TsEdge, TsSciGpe, TsGsi, TsPnp, TsPci, TsBase, TsConfig,
     // ---- FADT ----
-    FaFlag, FaProfile, FaDsdt32, FaDsdt64, FaFw32, FaFw64, FaAcpiEnable, FaAcpiDisable, FaGpe,
+    FaFlag, FaProfile, FaDsdt32, FaDsdt64, FaFw32, FaFw64, FaAcpiEnable, FaAcpiDisable, FaGpe, FaPoke,
+    // ---- direct writes to public fields of header-less structures (C14 batches only) ----
+    RsdpPoke, FacsPoke,
     // ---- Sdt ----
     SdAppend8, SdAppend16, SdAppend32, SdAppend64, SdAppendSlice,
     SdWrite8, SdWrite16, SdWrite32, SdWrite64, SdWriteBytes, SdUpdateCksum, SdSinkPush,
